@@ -138,7 +138,7 @@ func (o *Obs) PropertyC07() *Failure {
 	if rc.GasUsed < o.Intrinsic || rc.GasUsed > o.Spec.Gas {
 		return &Failure{"gas-used-out-of-bounds", fmt.Sprintf("gasUsed=%d intrinsic=%d gas=%d", rc.GasUsed, o.Intrinsic, o.Spec.Gas)}
 	}
-	if o.Spec.Gas > o.w().GasLimit {
+	if o.Spec.Gas > o.GasLimit {
 		return &Failure{"tx-gas-over-block-limit", "executed a tx whose gas exceeds the block gas limit"}
 	}
 	var consumed, refunded uint64
